@@ -1,6 +1,7 @@
 \* thorough tier, exhaustive: two calls on the representative lists (what one call hands back or moves is untouched by the next)
 CONSTANTS
   ShardLists <- MCFewLists
+  Deployments <- MCDepFew
   Instants = {0, 1, 2, 3, 4}
   Scenes = {"submit"}
   ChainKinds = {"x509", "precert", "precertPreIssuer"}
